@@ -58,6 +58,58 @@ func (Engine) Name() string { return "dvsim" }
 
 var prefixes = []string{"/app/a", "/app/b", "/app/c", "/svc/x"}
 
+var connectedCache = map[int][]int{}
+
+// connectedGraphs lists the edge masks (pairs in lexicographic order) of all labelled connected graphs on n nodes.
+func connectedGraphs(n int) []int {
+	if g, ok := connectedCache[n]; ok {
+		return g
+	}
+	var pairs [][2]int
+	for a := 0; a < n; a++ {
+		for b := a + 1; b < n; b++ {
+			pairs = append(pairs, [2]int{a, b})
+		}
+	}
+	var out []int
+	for mask := 0; mask < 1<<len(pairs); mask++ {
+		seen := 1
+		for changed := true; changed; {
+			changed = false
+			for i, p := range pairs {
+				if mask&(1<<i) == 0 {
+					continue
+				}
+				ia, ib := seen&(1<<p[0]) != 0, seen&(1<<p[1]) != 0
+				if ia != ib {
+					seen |= 1<<p[0] | 1<<p[1]
+					changed = true
+				}
+			}
+		}
+		if seen == 1<<n-1 {
+			out = append(out, mask)
+		}
+	}
+	connectedCache[n] = out
+	return out
+}
+
+func topologyID(n int, links [][2]int) string {
+	mask, bit := 0, 0
+	for a := 0; a < n; a++ {
+		for b := a + 1; b < n; b++ {
+			for _, l := range links {
+				if (l[0] == a && l[1] == b) || (l[0] == b && l[1] == a) {
+					mask |= 1 << bit
+				}
+			}
+			bit++
+		}
+	}
+	return fmt.Sprintf("n%d-%x", n, mask)
+}
+
 func (Engine) Generate(prop string, r *kit.Rand, tier string) *kit.Scenario[Config, Op] {
 	sc := &kit.Scenario[Config, Op]{}
 	c := &sc.Config
@@ -83,6 +135,25 @@ func (Engine) Generate(prop string, r *kit.Rand, tier string) *kit.Scenario[Conf
 	extra := r.Intn(c.N)
 	for i := 0; i < extra; i++ {
 		add(r.Intn(c.N), r.Intn(c.N))
+	}
+	// C18: half of the runs on <= 5 routers draw the topology uniformly from ALL labelled connected graphs of that
+	// size (1 + 4 + 38 + 728 = 771 graphs), so that a batch covers the small topologies exhaustively
+	if prop == "C18" && c.N <= 5 && r.Chance(0.5) {
+		gs := connectedGraphs(c.N)
+		mask := gs[r.Intn(len(gs))]
+		c.Links = nil
+		for k := range has {
+			delete(has, k)
+		}
+		bit := 0
+		for a := 0; a < c.N; a++ {
+			for b := a + 1; b < c.N; b++ {
+				if mask&(1<<bit) != 0 {
+					add(a, b)
+				}
+				bit++
+			}
+		}
 	}
 	// C18: often a topology with many equal-cost paths (two routers joined through all the others)
 	multipath := prop == "C18" && c.N >= 5 && r.Chance(0.35)
@@ -1307,14 +1378,19 @@ func (w *world) stateDigest() uint64 {
 			continue
 		}
 		rib, nbrs, pfx, _, seq := n.router.VerifTables()
-		_ = seq
+		// the advertisement sequence number is part of the state: a router that keeps re-advertising an
+		// unchanged topology has not reached a fixed point
+		d.U(seq)
 		xs := []string{}
 		for _, e := range rib {
-			nh := ""
+			nh, nh2 := "", ""
 			if e.NextHop1 != nil {
 				nh = e.NextHop1.String()
 			}
-			xs = append(xs, fmt.Sprintf("%s=%d via %s/%d", e.Dest, e.Cost1, nh, e.Cost2))
+			if e.NextHop2 != nil {
+				nh2 = e.NextHop2.String()
+			}
+			xs = append(xs, fmt.Sprintf("%s=%d via %s/%d via %s", e.Dest, e.Cost1, nh, e.Cost2, nh2))
 		}
 		d.SortedStrings(xs)
 		xs = xs[:0]
@@ -1403,6 +1479,21 @@ func (w *world) settle() {
 		}
 	}
 	// ---- fixed point
+	if w.sc.Config.N <= 5 {
+		var up [][2]int
+		all := true
+		for _, n := range w.nodes {
+			all = all && n.alive
+		}
+		for l, isUp := range w.linkUp {
+			if isUp {
+				up = append(up, l)
+			}
+		}
+		if all {
+			w.ctx.Probe("set:labelled topologies (n<=5, all routers up) whose fixed point was checked, of 771 connected ones:" + topologyID(w.sc.Config.N, up))
+		}
+	}
 	for _, n := range w.nodes {
 		if !n.alive {
 			continue
@@ -1458,6 +1549,27 @@ func (w *world) settle() {
 					w.finalNH = map[string]string{}
 				}
 				w.finalNH[fmt.Sprintf("r%d>%s", n.id, e.Dest)] = e.NextHop1.String()
+				// With two or more neighbours on shortest paths the tie is between them: the entry's second
+				// next hop and cost are then determined by the topology and the tie-break alone (each such
+				// neighbour offers cost-1, and none of them routes through this router).
+				if d := nodeIndex(e.Dest); d >= 0 && d != n.id {
+					tied := 0
+					for _, nb := range w.nodes {
+						if nb.id != n.id && nb.alive && w.linkUp[lk(n.id, nb.id)] {
+							if dn, ok := w.bfs(nb.id, false)[d]; ok && dn == dist[d]-1 {
+								tied++
+							}
+						}
+					}
+					if tied >= 2 {
+						nh2 := "none"
+						if e.NextHop2 != nil {
+							nh2 = e.NextHop2.String()
+						}
+						w.finalNH[fmt.Sprintf("r%d>%s (second of %d tied)", n.id, e.Dest, tied)] = fmt.Sprintf("%s at cost %d", nh2, e.Cost2)
+						w.ctx.Probe("fixed-point/equal-cost-tie")
+					}
+				}
 			}
 		}
 		if w.sc.Property == "C19" {
